@@ -1,6 +1,10 @@
 package compile
 
-import "github.com/sdcio/yang-parser/vrt"
+import (
+	"strconv"
+
+	"github.com/sdcio/yang-parser/vrt"
+)
 
 // VerifH_CompileSmoke: engine viability for the compiler.
 func VerifH_CompileSmoke() {
@@ -20,4 +24,252 @@ func VerifH_CompileSmoke() {
 		return
 	}
 	vrt.Observe("dump", dumpModelSet(ms))
+}
+
+// ---------------------------------------------------------------- C11
+
+// VerifH_C11_Determinism: the same module set compiled under every map-iteration policy
+// of the executor and every insertion order of the input map gives the same outcome.
+func VerifH_C11_Determinism() {
+	variant := vrt.Choice("variant", 3)
+	var texts [][2]string
+	switch variant {
+	case 0: // identities with equal local names in two modules deriving from one base
+		texts = [][2]string{
+			{"basem", "module basem { namespace 'urn:b'; prefix b; identity transport; identity tcp { base transport; } identity udp { base transport; } }"},
+			{"extm", "module extm { namespace 'urn:e'; prefix e; import basem { prefix b; } identity tcp { base b:transport; } identity sctp { base b:transport; } }"},
+			{"app", "module app { namespace 'urn:a'; prefix a; import basem { prefix b; } leaf proto { type identityref { base b:transport; } } }"},
+		}
+	case 1: // features across modules, groupings, augments from two modules onto one target
+		texts = [][2]string{
+			{"m1", "module m1 { namespace 'urn:1'; prefix m1; feature f; container c { leaf a { type string; } } grouping g { leaf gl { type uint8; } } }"},
+			{"m2", "module m2 { namespace 'urn:2'; prefix m2; import m1 { prefix m1; } augment /m1:c { leaf b { type string; } uses m1:g; } }"},
+			{"m3", "module m3 { namespace 'urn:3'; prefix m3; import m1 { prefix m1; } augment /m1:c { leaf d { if-feature m1:f; type string; } } }"},
+		}
+	case 2: // a module with a submodule and a deviation from a third module
+		texts = [][2]string{
+			{"main", "module main { namespace 'urn:m'; prefix m; include sub; container c { uses sg; leaf l { type string; } } }"},
+			{"sub", "submodule sub { belongs-to main { prefix m; } grouping sg { leaf s { type string; } } }"},
+			{"dev", "module dev { namespace 'urn:d'; prefix d; import main { prefix m; } deviation /m:c/m:l { deviate add { default 'x'; } } }"},
+		}
+	}
+	perm := [][]int{{0, 1, 2}, {0, 2, 1}, {1, 0, 2}, {1, 2, 0}, {2, 0, 1}, {2, 1, 0}}[vrt.Choice("insertion-order", 6)]
+	policy := vrt.Choice("map-order-policy", 6)
+	build := func(order []int) map[string]string {
+		m := map[string]string{}
+		for _, k := range order {
+			m[texts[k][0]] = texts[k][1]
+		}
+		return m
+	}
+	feats := featSet{"m1:f": true}
+	vrt.MapOrder(0)
+	ref, refErr := compileTexts(build([]int{0, 1, 2}), feats, nil)
+	vrt.MapOrder(policy)
+	got, gotErr := compileTexts(build(perm), feats, nil)
+	vrt.MapOrder(0)
+	vrt.Reach("c11.determinism.variant" + strconv.Itoa(variant))
+	if refErr != nil {
+		vrt.Observe("reference-error", true) // the text may name a different offender per map order
+	}
+	vrt.Assert((refErr == nil) == (gotErr == nil), "c11.determinism.same-verdict")
+	// the fixed module sets are valid: a verdict that is an error under every order would
+	// make the comparison vacuous
+	vrt.Assert(refErr == nil, "c11.determinism.reference-compiles")
+	if refErr != nil || gotErr != nil {
+		return
+	}
+	same := dumpModelSet(ref) == dumpModelSet(got)
+	if !vrt.Symbolic() {
+		// native confirmation: Go randomises map iteration on every range, so an order
+		// dependence shows up when the compilation is simply repeated
+		for r := 0; r < 40 && same; r++ {
+			again, e := compileTexts(build(perm), feats, nil)
+			if e != nil || dumpModelSet(again) != dumpModelSet(ref) {
+				same = false
+			}
+		}
+	}
+	vrt.Assert(same, "c11.determinism.same-schema")
+}
+
+// VerifH_C11_Cycles: reference graphs with nondeterministic edges (cycles, self
+// references, dangling references) must end in an error or a schema, never in a panic
+// or in unbounded recursion.
+func VerifH_C11_Cycles() {
+	kind := vrt.Param("kind", -1) // 0 imports, 1 groupings, 2 typedefs, 3 identities, 4 features
+	if kind < 0 {
+		kind = vrt.Choice("kind", 5)
+	}
+	// edges i -> j among three entities
+	var e [3][3]bool
+	for i := 0; i < 3; i++ {
+		for j := 0; j < 3; j++ {
+			e[i][j] = vrt.Bool("e" + strconv.Itoa(i) + strconv.Itoa(j))
+		}
+	}
+	if kind == 0 {
+		// a module importing itself is left unspecified (not generated)
+		vrt.Assume(!e[0][0] && !e[1][1] && !e[2][2])
+	}
+	// single-reference kinds: at most one outgoing edge
+	single := kind == 2 || kind == 3
+	if single {
+		for i := 0; i < 3; i++ {
+			n := 0
+			for j := 0; j < 3; j++ {
+				if e[i][j] {
+					n++
+				}
+			}
+			vrt.Assume(n <= 1)
+		}
+	}
+	// reference: is there a cycle?
+	cyc := false
+	var reach [3][3]bool
+	for i := 0; i < 3; i++ {
+		for j := 0; j < 3; j++ {
+			reach[i][j] = e[i][j]
+		}
+	}
+	for k := 0; k < 3; k++ {
+		for i := 0; i < 3; i++ {
+			for j := 0; j < 3; j++ {
+				if reach[i][k] && reach[k][j] {
+					reach[i][j] = true
+				}
+			}
+		}
+	}
+	for i := 0; i < 3; i++ {
+		if reach[i][i] {
+			cyc = true
+		}
+	}
+	n := []string{"a", "b", "c"}
+	texts := map[string]string{}
+	switch kind {
+	case 0:
+		for i := 0; i < 3; i++ {
+			t := "module " + n[i] + " { namespace 'urn:" + n[i] + "'; prefix " + n[i] + "; "
+			for j := 0; j < 3; j++ {
+				if e[i][j] && i != j {
+					t += "import " + n[j] + " { prefix p" + n[j] + "; } "
+				}
+			}
+			// a self import is written too
+			if e[i][i] {
+				t += "import " + n[i] + " { prefix self; } "
+			}
+			texts[n[i]] = t + "leaf l" + n[i] + " { type string; } }"
+		}
+	default:
+		t := "module m { namespace 'urn:m'; prefix m; "
+		for i := 0; i < 3; i++ {
+			switch kind {
+			case 1:
+				t += "grouping " + n[i] + " { leaf l" + n[i] + " { type string; } "
+				for j := 0; j < 3; j++ {
+					if e[i][j] {
+						t += "uses " + n[j] + "; "
+					}
+				}
+				t += "} "
+			case 2:
+				base := "string"
+				for j := 0; j < 3; j++ {
+					if e[i][j] {
+						base = n[j]
+					}
+				}
+				t += "typedef " + n[i] + " { type " + base + "; } "
+			case 3:
+				t += "identity " + n[i] + " { "
+				for j := 0; j < 3; j++ {
+					if e[i][j] {
+						t += "base " + n[j] + "; "
+					}
+				}
+				t += "} "
+			case 4:
+				t += "feature " + n[i] + " { "
+				for j := 0; j < 3; j++ {
+					if e[i][j] {
+						t += "if-feature " + n[j] + "; "
+					}
+				}
+				t += "} "
+			}
+		}
+		switch kind {
+		case 1:
+			t += "container top { uses a; } "
+		case 2:
+			t += "leaf top { type a; } "
+		case 3:
+			t += "leaf top { type identityref { base a; } } "
+		case 4:
+			t += "leaf top { if-feature a; type string; } "
+		}
+		texts["m"] = t + "}"
+	}
+	vrt.Class("C11-typedef-cycle-unbounded-recursion", kind == 2 && cyc)
+	vrt.Class("C11-grouping-cycle-unbounded-recursion", kind == 1 && cyc)
+	vrt.Reach("c11.cycles.kind" + strconv.Itoa(kind))
+	var err error
+	ok, ptxt := vrt.NoPanic(func() {
+		_, err = compileTexts(texts, featSet{"m:a": true, "m:b": true, "m:c": true}, nil)
+	})
+	if !ok {
+		vrt.Observe("panic", ptxt)
+	}
+	vrt.Assert(ok, "c11.cycles.no-panic")
+	if !ok {
+		return
+	}
+	if err != nil {
+		vrt.Observe("verdict", kind, true) // error texts depend on map iteration order
+	}
+	// typedef chains are resolved on demand: only a cycle reachable from the typedef the
+	// leaf uses must be reported (an unused cyclic typedef is left unspecified)
+	if kind == 2 {
+		cyc = reach[0][0]
+		for k := 1; k < 3; k++ {
+			if reach[0][k] && reach[k][k] {
+				cyc = true
+			}
+		}
+		unusedCycle := !cyc && (reach[1][1] || reach[2][2])
+		if unusedCycle {
+			vrt.Reach("c11.cycles.unused-typedef-cycle-unspecified")
+			return
+		}
+	}
+	if cyc {
+		vrt.Assert(err != nil, "c11.cycles.cycle-is-an-error")
+		return
+	}
+	// an acyclic diamond of groupings duplicates the shared grouping's nodes (a
+	// legitimate name clash): not asserted
+	if kind == 1 {
+		for i := 0; i < 3; i++ {
+			for j := 0; j < 3; j++ {
+				n := 0
+				if e[i][j] {
+					n++
+				}
+				for k := 0; k < 3; k++ {
+					if k != i && k != j && e[i][k] && e[k][j] {
+						n++
+					}
+				}
+				if n >= 2 {
+					vrt.Reach("c11.cycles.grouping-diamond-unspecified")
+					return
+				}
+			}
+		}
+	}
+	vrt.Assert(err == nil, "c11.cycles.acyclic-graph-compiles")
 }
